@@ -84,13 +84,12 @@ fn listing(dir: &str) -> Vec<(String, bool, Vec<u8>)> {
     out
 }
 
-pub fn run(dir: &str, seed: u64, nbatches: usize) -> String {
+pub fn run(dir: &str, seed: u64, nbatches: usize, entries: usize) -> String {
     let a = format!("{}/A", dir);
     let b = format!("{}/B", dir);
     let _ = std::fs::remove_dir_all(&a);
     let _ = std::fs::remove_dir_all(&b);
     if std::fs::create_dir_all(&a).is_err() || std::fs::create_dir_all(&b).is_err() { return "bad-op".into(); }
-    let entries = 8usize;
     let mut ring = match setup_io_uring(entries as u32, IoUringParamFlags::empty(), 0, 0) { Ok(r) => r, Err(e) => return format!("setup-err {:?}", e.code) };
     let a_dir = std::fs::File::open(&a).unwrap();
     let a_dirfd = Fd::try_new(std::os::fd::AsRawFd::as_raw_fd(&a_dir)).unwrap();
@@ -104,7 +103,7 @@ pub fn run(dir: &str, seed: u64, nbatches: usize) -> String {
     let mut errs = 0usize;
     let mut linked_batches = 0usize;
     for bi in 0..nbatches {
-        let n = 1 + rng.below(entries as u64) as usize;
+        let n = 1 + rng.below(entries.min(8) as u64) as usize;
         let linked = rng.below(4) == 0;
         let mut used_names: Vec<String> = Vec::new();
         let mut used_handles: Vec<usize> = Vec::new();
